@@ -169,6 +169,20 @@ impl Var {
 //@|         final(t).status == old(t).status && final(t).stabilisation_num == old(t).stabilisation_num, // [frame-state]
 //@end
 
+//@extract fn Var::break_rc_cycle
+//@ file: src/var.rs
+//@ impl: impl<T: Value> ErasedVariable for Var<T>
+//@ name: break_rc_cycle
+//@ as: fn break_rc_cycle(&mut self)
+//@ cells: node
+//@ props: C08 C13
+//@ contract:
+//@|     ensures
+//@|         final(self).node is None, // [the-var-lets-go-of-its-watch-node]
+//@|         final(self).value == old(self).value && final(self).value_set_during_stabilisation == old(self).value_set_during_stabilisation, // [frame]
+//@|     // [teardown-never-panics-whatever-is-pending]: no precondition, in either build
+//@end
+
 //@extract fn Var::set_var_stabilise_end
 //@ file: src/var.rs
 //@ impl: impl<T: Value> ErasedVariable for Var<T>
@@ -182,6 +196,7 @@ impl Var {
 //@|     ensures
 //@|         final(self).value_set_during_stabilisation is None, // [pending-cleared]
 //@|         old(self).value_set_during_stabilisation is Some ==> final(self).value == old(self).value_set_during_stabilisation.unwrap(), // [parked-write-applied]
+//@|         old(self).value_set_during_stabilisation is Some ==> final(self).set_at.0 == (if old(self).set_at.0 < old(t).stabilisation_num.0 { old(t).stabilisation_num.0 } else { old(self).set_at.0 }), // [a-parked-write-is-stamped-like-any-other-write-so-the-next-stabilise-propagates-it-even-if-the-value-is-equal]
 //@|         old(self).value_set_during_stabilisation is None ==> final(self).value == old(self).value && final(self).set_at == old(self).set_at && final(t).recompute_heap.inserted@ == old(t).recompute_heap.inserted@, // [nothing-parked-nothing-happens]
 //@end
 
